@@ -397,3 +397,48 @@ def check_keygen(ctx, P, rule="E5.keygen"):
                     got = bytes.fromhex(val.a[1]).decode("latin-1") if val is not None and val.op == "const" and val.a[0] == "bytes" else None
                     ctx.ob(rule + ".keysalt", fn.key, tg.op == "named" and got == pinned["salts"]["keygen"], "key derivation salt = %r (want %r)" % (got, pinned["salts"]["keygen"]), where=where(fn, bb))
     ctx.floor(rule + ".keysalt", "key-derivation call sites", n, 4)
+
+
+def check_seeded_derivation(ctx, P, rule="E5.seeded"):
+    """Key / challenge derivation from a caller-supplied RNG is hash_to_scalar(rng.gen::<[u8;32]>(), KEYGEN_SALT) -
+    backend-independent - and the duplicated entry points agree; the backend's own Field::random is confined
+    to ephemeral values."""
+    fns = ["SecretKey<C>::random", "BlsSignature<T>::random_secret_key", "ProofCommitmentChallenge<C>::random"]
+    shapes = {}
+    for fk in fns:
+        f = ctx.need_fn(rule, fk, P)
+        if f is None:
+            continue
+        ev = evaluate(f)
+        ret = strip_sites(ev.ret)
+        hs = [t for t in subterms(ret) if t.op == "call" and B.cname(t) == "HashToScalar::hash_to_scalar"]
+        ok = len(hs) == 1
+        detail = show(ret, 5)
+        if ok:
+            m, salt = hs[0].a[1]
+            mm = B.peel(m)
+            gen = mm.op == "call" and B.cname(mm) == "Rng::gen" and mm.a[0][1][1:2] == ("[u8; 32]",) and B.peel(mm.a[1][0]).op == "param" and B.peel(mm.a[1][0]).a[1] == "rng"
+            st = B.peel(salt)
+            sv = bytes.fromhex(st.a[2].a[1]).decode("latin-1") if st.op == "named" and st.a[2].op == "const" else None
+            ok = gen and sv == spec("pinned.json")["salts"]["keygen"]
+            shapes[fk] = (gen, sv)
+        ctx.ob(rule, fk, ok, "%s = hash_to_scalar(rng.gen::<[u8;32]>(), KEYGEN_SALT): %s" % (fk, detail), where=where(f))
+    if len(shapes) >= 2:
+        ctx.ob(rule, "siblings", len(set(shapes.values())) == 1, "seeded derivations agree: %s" % shapes)
+    # Field::random who-may-call
+    allowed = {"BlsSignatureProof::generate_commitment", "BlsSignatureProof::generate_timestamp_proof"}
+    n = 0
+    for f in P.fns.values():
+        for bb, t in f.calls():
+            c = t.get("callee") or {}
+            if c.get("trait") == "Field" and c.get("name") == "random":
+                n += 1
+                base = f
+                k = 0
+                while base is not None and base.kind == "Closure" and k < 4:
+                    base = P.fns.get(base.j.get("parent_key"))
+                    k += 1
+                bk = base.key if base is not None else f.key
+                ok = bk in allowed or bk.startswith("BlsElGamal::seal_")
+                ctx.ob(rule + ".field-random", f.key, ok, "backend-specific sampling Field::random is used only for ephemeral values (commitment secrets, ElGamal blinders), never for values derived from a caller's seed", where=where(f, bb))
+    ctx.floor(rule + ".field-random", "Field::random call sites", n, 6)
